@@ -395,6 +395,51 @@ for _prop in ("C01", "C02"):
     scenario(_prop, [RUS + "._sample_n_points_with_filter", RUS + "._sample_points_with_filter", PS + "._apply_filter", PS + "._cut_tensor_to_length_n", PS + "._check_iteration_number", PS + "._sample_for_ith_param"], configs=["dep/K"])(_rf)
 
 
+for _prop in ("C01", "C02"):
+    def _gsf(S, _prop=_prop):
+        """GridSampler with n_points AND a filter: per parameter row a grid, the filter, a rescaled grid, a fill-up with
+        filtered random points (RandomUniformSampler with the same filter, used through its contract -- proved by
+        random_uniform_sampler_with_filter), cut to n.  post: exactly n rows per parameter row, all passing the filter,
+        inside the domain at their own parameter row and carrying it"""
+        su = Setup(S, True, True)
+        flt = RowFn("keep", ["x"], 1, {"x": 2}, dtype="bool")
+
+        def Pt(tk, row):
+            return z3.And(su.dom.in_pred(row[:2], [tk]), row[2] == tk, flt.value_terms(row[:2])[0])
+
+        Pk = lambda k, row: Pt(zreal(su.T.val.at([(k,), ()])), row)
+        S.loop(GS + "._sample_n_points_with_filter", 0, acc_points_loop(S, "sample_points", [("x", R2), ("t", R1)], su.n, 3, lambda k, j, row: Pk(k, row), "parameter-loop"))
+
+        def rus_contract(I_, fn, args, kwargs):
+            env = I_.bind_args(fn, args, kwargs)
+            me, params = env.vars["self"], env.vars["params"]
+            I_.ctx.oblige(f"pre@{I_.ctx.loc}:fill-up-sampler-uses-the-same-domain-filter-and-n", me.f["domain"] is su.dom.obj and me.f.get("filter_fn") is not None and z3.BoolVal(True) and zint(me.f["n_points"]) == zint(su.n), (), "pre")
+            pt = params.f["_t"].val
+            I_.ctx.oblige(f"pre@{I_.ctx.loc}:fill-up-sampler-gets-one-parameter-row", pt.rank == 2 and pt.shape[0].is_one, (), "pre")
+            tk = zreal(pt.at([(), ()]))
+            nm = core.fresh_name("fill")
+            f = z3.Function(nm, z3.IntSort(), z3.IntSort(), z3.RealSort())
+
+            def fnv(idx):
+                r = zint(idx[0][0])
+                row = [f(r, z3.IntVal(c)) for c in range(3)]
+                I_.ctx.axiom(z3.Implies(z3.And(r >= 0, r < zint(su.n)), Pt(tk, row)))
+                return core.select_comp(idx[1][0], 3, [(lambda x=x: x) for x in row])
+
+            sp = I_.binop(ast.Mult(), S.new(R2, "x"), S.new(R1, "t"))
+            return I_.instantiate(I_.repo.find(POINTS), [Tensor(STensor([core.dim_of(su.n), Dim([3])], fnv, "real", nm)), sp], {})
+
+        S.use_contract(PS + ".sample_points", rus_contract)
+        smp = S.new(GS, su.dom.obj, n_points=su.n, filter_fn=flt)
+        pts = S.method(smp, "_sample_points_with_filter", su.params)
+        su.check(S, _prop, pts)
+        t = tensor_of(pts)
+        if _prop == "C01" and t.rank == 2 and len(t.shape[0].factors) == 2:
+            S.forall("every-returned-row-passes-the-filter", t, lambda q: flt.value_terms([zreal(t.at([q[0], (c,)])) for c in range(2)])[0])
+    _gsf.__name__ = "grid_sampler_with_filter"
+    scenario(_prop, [GS + "._sample_points_with_filter", GS + "._sample_n_points_with_filter", GS + "._sample_grid", GS + "._resample_grid", GS + "._append_random_points", PS + "._apply_filter", PS + "._cut_tensor_to_length_n"], configs=["dep/K"])(_gsf)
+
+
 # ----------------------------------------------------------------------------- Gaussian sampler (C01/C02)
 GAUSS = "torchphysics.problem.samplers.random_samplers.GaussianSampler"
 
